@@ -88,6 +88,21 @@ replace verif => %s
 
 replace goa.design/clue => %s/stubs/clue
 `, s.Repo, s.VerifRoot, s.VerifRoot)
+	// Every module the generated code can need is required up front (the
+	// requirements of the verifier's and of goa's go.mod): otherwise the first
+	// builds add them (-mod=mod), and two builds running at once in this
+	// module trip over each other ("updating go.mod: existing contents have changed").
+	gomod += "\nrequire (\n"
+	seenReq := map[string]bool{"goa.design/goa/v3": true, "goa.design/clue": true, "verif": true}
+	for _, f := range []string{filepath.Join(s.VerifRoot, "go.mod"), filepath.Join(s.Repo, "go.mod")} {
+		for _, r := range requirements(f) {
+			if !seenReq[r[0]] {
+				seenReq[r[0]] = true
+				gomod += "\t" + r[0] + " " + r[1] + "\n"
+			}
+		}
+	}
+	gomod += ")\n"
 	if err := os.WriteFile(filepath.Join(root, "go.mod"), []byte(gomod), 0o644); err != nil {
 		return nil, err
 	}
@@ -107,6 +122,38 @@ replace goa.design/clue => %s/stubs/clue
 		return nil, fmt.Errorf("building goaeval: %v\n%s", err, out)
 	}
 	return s, nil
+}
+
+// requirements lists the (module, version) pairs required by a go.mod file.
+func requirements(path string) [][2]string {
+	b, err := os.ReadFile(path)
+	if err != nil {
+		return nil
+	}
+	var out [][2]string
+	in := false
+	for _, line := range strings.Split(string(b), "\n") {
+		t := strings.TrimSpace(line)
+		if i := strings.Index(t, "//"); i >= 0 {
+			t = strings.TrimSpace(t[:i])
+		}
+		switch {
+		case t == "require (":
+			in = true
+			continue
+		case t == ")":
+			in = false
+			continue
+		case strings.HasPrefix(t, "require "):
+			t = strings.TrimSpace(strings.TrimPrefix(t, "require "))
+		case !in:
+			continue
+		}
+		if f := strings.Fields(t); len(f) == 2 && strings.HasPrefix(f[1], "v") {
+			out = append(out, [2]string{f[0], f[1]})
+		}
+	}
+	return out
 }
 
 func hasGRPC(d *model.Design) bool {
